@@ -551,15 +551,25 @@ def r6_daily_time_parser(ctx, facts):
     site = "RotatingFileSinkConfig::_parse_daily_rotation_time"
     finds = [c for c in f.calls(r"basic_string<.*>::find$") if var_ref(call_obj(c)) == text and const_val(c["args"][0]) == 58]
     loops = [n for n in f.walk() if n["k"] in ("WhileStmt", "ForStmt") and any(in_subtree(c, n.get("cond")) for c in finds)]
+    for_form = False
+    if not loops:
+        # the same loop as a for statement: `for (end = s.find(':', start); end != npos; end = s.find(':', start))` — the search in the
+        # initialiser and, identically, in the increment; the condition tests the variable they assign
+        cand = [n for n in f.walk() if n["k"] == "ForStmt" and isnode(n.get("init")) and isnode(n.get("inc")) and
+                any(in_subtree(c, n["init"]) for c in finds) and any(in_subtree(c, n["inc"]) for c in finds)]
+        if len(cand) == 1 and len(finds) == 2 and expr_key(strip(cand[0]["init"])) == expr_key(strip(cand[0]["inc"])):
+            loops, for_form = cand, True
     if not finds or len(loops) != 1:
         raise AnalysisBroken(site + ": no 'find(':', start)' split loop — a parser of this shape is not decided")
     lp = loops[0]
     decls = f.var_decls()
     startv = var_ref(strip(finds[0]["args"][1], casts=True)) if len(finds[0]["args"]) > 1 else None
     endv = None
-    for x in walk(lp["cond"]):
-        if x["k"] == "BinaryOperator" and x["op"] == "=" and any(y is finds[0] for y in walk(x["rhs"])):
+    for x in (list(walk(lp["init"])) + list(walk(lp["inc"])) if for_form else walk(lp["cond"])):
+        if x["k"] == "BinaryOperator" and x["op"] == "=" and any(any(y is fc for fc in finds) for y in walk(x["rhs"])):
             endv = var_ref(x["lhs"])
+    if for_form and not any(x["k"] == "DeclRefExpr" and x.get("did") == endv for x in walk(lp.get("cond") or {})):
+        raise AnalysisBroken(site + ": the for-form of the split loop does not test the variable the searches assign")
     ck = _rel(lp["cond"])
     cont_while_found = ck is not None and ck[0] == "!=" and any(y["k"] == "DeclRefExpr" and y.get("name", "").endswith("npos") for y in walk(lp["cond"]))
     start0 = startv is not None and const_val((decls.get(startv) or {}).get("init")) == 0
